@@ -171,7 +171,10 @@ Section Complete.
     unfold parse_qd. rewrite Fn. cbn [bind]. rewrite F1. cbn [bind]. rewrite F2. cbn [bind].
     unfold query_add. rewrite Hcls.
     assert (Hty : rec_type_isvalid qt true = true).
-    { unfold rec_type_isvalid, tbl_rec_types_invalid_query, zmem. cbn [existsb].
+    { unfold rec_type_isvalid.
+      replace ((0 <=? qt) && (qt <=? 65536)) with true
+        by (symmetry; apply andb_true_iff; split; apply Z.leb_le; lia).
+      unfold tbl_rec_types_invalid_query, zmem. cbn [existsb].
       replace (qt =? 65536) with false by (symmetry; apply Z.eqb_neq; lia). reflexivity. }
     rewrite Hty. cbn [negb orb bind]. eexists. split; [reflexivity | exact Hp2].
   Qed.
